@@ -145,6 +145,7 @@ ADDENDA = {
     "C01": "Also: per-group overrides of grafting / preconditioner config / root override / blocking / preconditioner dtype; steps taken with step(closure) (gradients exist only after the closure ran); histories that continue on a freshly constructed optimizer which loaded the distributed state dict mid-run; 40-90 step histories.",
     "C02": "Also: two-group twins in which the first group has no gradient on some steps; a vanishing Shampoo direction for a non-zero gradient is judged (it must still move the block by the grafted norm).",
     "C03": "Also: stopping-rule monitor for the QR method (the stored basis must equal the iterate at an iteration where 'relative change <= tolerance or budget exhausted' allows stopping; float64, noise-probe and working-dtype replays widen the admissible set); histories that continue on a checkpoint-restored optimizer.",
+    "C04": "Also: a sharded family (HSDP / HybridShard worlds on simulated ranks, shared with C07/C08): shards without a gradient stay bit-identical and present ones follow their own serial twin on every rank.",
     "C05": "Also: for SOAP a mismatch is excused only when both twins hold the same factor matrices but different (equally valid) eigenbases.",
     "C06": "Also: several param groups per optimizer, bfloat16 and mixed bfloat16/float32 parameter groups, exact opmath rounding model for mixed dtypes, one fixed case for the listed known finding.",
     "C07": "Also: mixed bfloat16/float32 parameter groups (forced in every 10th case), communication-dtype quantisation fingerprint of the applied update / parameter, thorough tier: real torch FSDP/HSDP wrapping on gloo processes (metadata compiled by the repo from the real flat parameters).",
